@@ -50,11 +50,20 @@ partial def termToGo : Term → GoVal
   | .list [.atom "S", .atom v] => .str (hexOf v)
   | .list [.atom "P", t] => .ptr (some (termToGo t))
   | .list (.atom "L" :: .atom "nilref" :: _) => .slice []
+  | .list (.atom "L" :: .atom "typed" :: ts) => .slice (ts.map termToGo)
   | .list (.atom "L" :: ts) => .slice (ts.map termToGo)
   | .list (.atom "M" :: .atom "nilref" :: _) => .map []
+  | .list (.atom "M" :: .atom "typed" :: .atom "nkey" :: ts) => .map (pairs ts)
+  | .list (.atom "M" :: .atom "typed" :: ts) => .map (pairs ts)
+  | .list (.atom "M" :: .atom "nkey" :: ts) => .map (pairs ts)
   | .list (.atom "M" :: ts) => .map (pairs ts)
   | .list (.atom "T" :: ts) => .struct (fields ts)
   | .list [.atom "O", .atom k] => .other k
+  | .list [.atom "NT", .atom "0"] => .struct [(b "A", true, .int 1), (b "B", true, .str (b "x"))]
+  | .list [.atom "NT", .atom "1"] => .struct [(b "B", true, .str (b "y")), (b "C", true, .bool true), (b "A", true, .int 2)]
+  | .list [.atom "NT", .atom "2"] =>
+    .struct [(b "Name", true, .str (b "n")), (b "inner", false, .int 5), (b "Tags", true, .slice [.str (b "t")])]
+  | .list [.atom "NT", .atom _] => .struct []
   | _ => .other "?"
 where
   pairs : List Term → List (Bytes × GoVal)
